@@ -40,6 +40,40 @@ CLAIMED = {
              "cache must be tight, as the statement says; the abstract-model exhaustive part of the quantifier "
              "is model checking and not attempted.",
         ref="DESIGN.md §4 C03"),
+    "C04": dict(
+        technique="deterministic simulation with fault injection: every needed task body made to raise in turn "
+                  "(9 exception kinds incl. BaseException/unpicklable), plus worker crash, refused submit, "
+                  "client interrupt, under seeded completion schedules",
+        text="Per generated graph every needed task body is a fault site and is made to raise in turn; oracles: "
+             "same type (subclass on the multiprocessing path) with the original message, no dependent body "
+             "starts, finish callbacks once with failed=True, termination within a step cap. Worker crash / "
+             "refused submit / interrupt run classes use a relaxed oracle (raises that error or returns the "
+             "right value, never hangs).",
+        note="Exception kinds and schedules are sampled per fault site; tasks atomic under E1; tblib absent so "
+             "the RemoteException path is the one exercised; one open known finding (unpicklable exception on "
+             "the multiprocessing path) is matched narrowly.",
+        ref="DESIGN.md §4 C04"),
+    "C05": dict(
+        technique="deterministic simulation: seeded operation histories (enter/exit/register/unregister/get with "
+                  "faults) against a reference model of the active-callback set, gets under simulated schedules",
+        text="History-based exploration: after every operation the real Callback.active is compared with the "
+             "model (registered ∪ open contexts) and every scheduler call's callback log is checked against "
+             "the protocol (start first once, pretask→posttask once per key, finish last once with the right "
+             "flag, inactive callbacks silent), including gets that fail, are interrupted, or whose "
+             "pretask/posttask callback raises.",
+        note="register/unregister are generated only while the callback is not held by an open context; no "
+             "exceptions are injected into start/finish callbacks (statement silent).",
+        ref="DESIGN.md §4 C05"),
+    "C17": dict(
+        technique="deterministic simulation of operation histories (nested set/exit, part-way failing sets, gets, "
+                  "helpers) against a reference config model with snapshots",
+        text="History-based exploration over nested config.set contexts on private and global config dicts: "
+             "exit restores the snapshot taken at the matching enter, a set call that raises leaves the config "
+             "equal to the snapshot taken just before (atomicity under a fault inside the call), get under the "
+             "other spelling agrees with a reference model, update/merge/collect_env/serialize follow the model.",
+        note="Single-threaded histories; the failing-set fault is a dotted path running through a non-mapping "
+             "placed first/middle/last in the call; asynchronous exceptions are out of the statement.",
+        ref="DESIGN.md §4 C17"),
 }
 
 NA = {
@@ -118,8 +152,9 @@ def main():
         "version": 1,
         "setup_cmd": "/venv/bin/python /verif/tools/setup_check.py",
         "hooks": {
-            "guard": "DASK_VERIF_SIM",
-            "enable": "none needed: every seam is an argument (submit=/pool=/scheduler=/lock=/targets) or a "
+            "guard": "VERIF_DASK_SIM",
+            "enable": "no hook exists in /repo and the variable is read by nothing (a DASK_* name would be "
+                      "collected into dask.config): every seam is an argument (submit=/pool=/scheduler=/lock=/targets) or a "
                       "module-level name patched from /verif (dask.local.queue_get, dask.utils.Lock, "
                       "dask.tokenize.tokenize_lock, default_timer, uuid, numpy entropy); checks import dask "
                       "from /repo's working tree via sys.path",
